@@ -4,7 +4,7 @@
    RuntimeErrorKind (TypeError), so a result is Ok(value) or Err.
    Accessor tables, value ranges and MAX_ALLOC come from the translator (Extracted/ManualMem.v). *)
 From Coq Require Import NArith ZArith Bool List.
-From Aelys Require Import Extracted.ManualMem Model.Value Model.ManualHeap.
+From Aelys Require Import Base.CaseCheck Extracted.ManualMem Model.Value Model.ManualHeap.
 Import ListNotations.
 Local Open Scope N_scope.
 
@@ -107,9 +107,57 @@ Inductive bop :=
 | BWrite (w : N) (signed be : bool) (h off v : Z)
 | BWriteF (w : N) (be : bool) (h off : Z) (bits : N)        (* float operand given by its f64 bit pattern *)
 | BCopy (sh so dh doff len : Z)
-| BFill (h off len v : Z).
+| BFill (h off len v : Z)
+| BClone (h : Z)
+| BEquals (h1 h2 : Z)
+| BFromString (bs : list byte)                               (* the UTF-8 bytes of the string operand *)
+| BDecode (h off len : Z)
+| BWriteString (h off : Z) (bs : list byte)
+| BFind (h start stop needle : Z)
+| BReverse (h off len : Z)
+| BSwap (h i j : Z).
 
-Inductive bres := BOkInt (z : Z) | BOkUnit | BOkWord (w : N) | BErr.
+Inductive bres := BOkInt (z : Z) | BOkUnit | BOkWord (w : N) | BOkStr (bs : list byte) | BErr
+| BBad.   (* never returned by b_step: the specification's answer to a result it does not allow *)
+
+(* std::str::from_utf8 (Unicode 'well-formed UTF-8 byte sequences', table 3-7) *)
+Definition in_rng (lo hi b : N) : bool := (lo <=? b) && (b <=? hi).
+Fixpoint utf8_valid (l : list byte) : bool :=
+  match l with
+  | [] => true
+  | b0 :: r =>
+      if b0 <? 128 then utf8_valid r else
+      match r with
+      | [] => false
+      | b1 :: r1 =>
+          if in_rng 0xC2 0xDF b0 then in_rng 0x80 0xBF b1 && utf8_valid r1 else
+          match r1 with
+          | [] => false
+          | b2 :: r2 =>
+              if b0 =? 0xE0 then in_rng 0xA0 0xBF b1 && in_rng 0x80 0xBF b2 && utf8_valid r2
+              else if in_rng 0xE1 0xEC b0 || in_rng 0xEE 0xEF b0
+                   then in_rng 0x80 0xBF b1 && in_rng 0x80 0xBF b2 && utf8_valid r2
+              else if b0 =? 0xED then in_rng 0x80 0x9F b1 && in_rng 0x80 0xBF b2 && utf8_valid r2
+              else
+              match r2 with
+              | [] => false
+              | b3 :: r3 =>
+                  let tail := in_rng 0x80 0xBF b2 && in_rng 0x80 0xBF b3 && utf8_valid r3 in
+                  if b0 =? 0xF0 then in_rng 0x90 0xBF b1 && tail
+                  else if in_rng 0xF1 0xF3 b0 then in_rng 0x80 0xBF b1 && tail
+                  else if b0 =? 0xF4 then in_rng 0x80 0x8F b1 && tail
+                  else false
+              end
+          end
+      end
+  end.
+
+(* position of the first occurrence of [x] in [l], counted from [i] *)
+Fixpoint find_from (x : byte) (l : list byte) (i : N) : option N :=
+  match l with
+  | [] => None
+  | b :: r => if b =? x then Some i else find_from x r (N.succ i)
+  end.
 
 Definition reader_known (w kind : N) (be : bool) : bool :=
   existsb (fun r => let '(w', k', be') := r in (w' =? w) && (k' =? kind) && Bool.eqb be' be) bytes_readers.
@@ -218,6 +266,254 @@ Definition b_step (s : bstate) (o : bop) : bstate * bres :=
           then (set_buf s (Z.to_N h) (splice d (Z.to_N off) (repeat (Z.to_N v) (Z.to_nat len))), BOkUnit)
           else (s, BErr)
       end
+  | BClone h =>
+      if (h <? 0)%Z then (s, BErr) else
+      match get_buf s (Z.to_N h) with
+      | None => (s, BErr)
+      | Some d => let '(s', k) := store_resource s d in (s', BOkInt (Z.of_N k))
+      end
+  | BEquals h1 h2 =>
+      if (h1 <? 0)%Z then (s, BErr) else if (h2 <? 0)%Z then (s, BErr) else
+      match get_buf s (Z.to_N h1), get_buf s (Z.to_N h2) with
+      | Some d1, Some d2 => (s, BOkWord (v_bool (list_eqb N.eqb d1 d2)))
+      | _, _ => (s, BErr)
+      end
+  | BFromString bs =>
+      if MAX_ALLOC <? N.of_nat (length bs) then (s, BErr) else
+      let '(s', k) := store_resource s bs in (s', BOkInt (Z.of_N k))       (* an empty string gives an empty buffer *)
+  | BDecode h off len =>
+      if (h <? 0)%Z then (s, BErr) else if (off <? 0)%Z then (s, BErr) else
+      if (len <? 0)%Z then (s, BErr) else
+      match get_buf s (Z.to_N h) with
+      | None => (s, BErr)
+      | Some d =>
+          if in_bounds (Z.to_N len) (Z.to_N off) (N.of_nat (length d)) then
+            let bs := slice d (Z.to_N off) (Z.to_N len) in
+            (s, if utf8_valid bs then BOkStr bs else BErr)
+          else (s, BErr)
+      end
+  | BWriteString h off bs =>
+      match write_at s h off bs with
+      | (s', BOkUnit) => (s', BOkInt (Z.of_nat (length bs)))
+      | (s', r) => (s', r)
+      end
+  | BFind h start stop needle =>
+      if (h <? 0)%Z then (s, BErr) else if (start <? 0)%Z then (s, BErr) else
+      if ((needle <? 0) || (255 <? needle))%Z then (s, BErr) else
+      match get_buf s (Z.to_N h) with
+      | None => (s, BErr)
+      | Some d =>
+          let len := N.of_nat (length d) in
+          let e := if (stop <? 0)%Z then len else N.min (Z.to_N stop) len in
+          if e <=? Z.to_N start then (s, BOkInt (-1)) else
+          (s, match find_from (Z.to_N needle) (slice d (Z.to_N start) (e - Z.to_N start)) (Z.to_N start) with
+              | Some i => BOkInt (Z.of_N i)
+              | None => BOkInt (-1)
+              end)
+      end
+  | BReverse h off len =>
+      if (h <? 0)%Z then (s, BErr) else if (off <? 0)%Z then (s, BErr) else
+      if (len <? 0)%Z then (s, BErr) else
+      if (len =? 0)%Z then (s, BOkUnit) else
+      match get_buf s (Z.to_N h) with
+      | None => (s, BErr)
+      | Some d =>
+          if in_bounds (Z.to_N len) (Z.to_N off) (N.of_nat (length d))
+          then (set_buf s (Z.to_N h) (splice d (Z.to_N off) (rev (slice d (Z.to_N off) (Z.to_N len)))), BOkUnit)
+          else (s, BErr)
+      end
+  | BSwap h i j =>
+      if (h <? 0)%Z then (s, BErr) else if (i <? 0)%Z then (s, BErr) else if (j <? 0)%Z then (s, BErr) else
+      match get_buf s (Z.to_N h) with
+      | None => (s, BErr)
+      | Some d =>
+          match nth_N d (Z.to_N i), nth_N d (Z.to_N j) with
+          | Some x, Some y => (set_buf s (Z.to_N h) (upd_N (upd_N d (Z.to_N i) y) (Z.to_N j) x), BOkUnit)
+          | _, _ => (s, BErr)
+          end
+      end
+  end.
+
+(* ------------------------------------------------------------------------------------------
+   Specification: a finite map  handle -> byte array  of the live buffers (the [smap] of
+   Model/ManualHeap.v with bytes as values) with the obvious semantics.  [hint] is the
+   implementation's answer; only the operations that create a buffer use it, to learn which fresh
+   handle was chosen (any handle that is not live is acceptable; a live one is answered BBad). *)
+Definition sp_new (m : smap) (d : buf) (hint : bres) : smap * bres :=
+  match hint with
+  | BOkInt z =>
+      if (z <? 0)%Z then (m, BBad) else
+      match sm_get m (Z.to_N z) with
+      | None => ((Z.to_N z, d) :: m, BOkInt z)
+      | Some _ => (m, BBad)
+      end
+  | _ => (m, BBad)
+  end.
+
+Definition sp_write_at (m : smap) (h off : Z) (bs : list byte) : smap * bres :=
+  if (h <? 0)%Z then (m, BErr) else if (off <? 0)%Z then (m, BErr) else
+  match sm_get m (Z.to_N h) with
+  | None => (m, BErr)
+  | Some d =>
+      if in_bounds (N.of_nat (length bs)) (Z.to_N off) (N.of_nat (length d))
+      then (sm_set m (Z.to_N h) (splice d (Z.to_N off) bs), BOkUnit)
+      else (m, BErr)
+  end.
+
+Definition bspec_step (m : smap) (o : bop) (hint : bres) : smap * bres :=
+  match o with
+  | BAlloc n =>
+      if (n <=? 0)%Z then (m, BErr) else
+      if MAX_ALLOC <? Z.to_N n then (m, BErr) else sp_new m (repeat 0 (Z.to_nat n)) hint
+  | BFree ANull => (m, BOkUnit)
+  | BFree AOther => (m, BErr)
+  | BFree (AInt h) =>
+      if (h <? 0)%Z then (m, BErr) else
+      match sm_get m (Z.to_N h) with
+      | Some _ => (sm_remove m (Z.to_N h), BOkUnit)
+      | None => (m, BErr)                                   (* freed twice, or never issued *)
+      end
+  | BSize h =>
+      if (h <? 0)%Z then (m, BErr) else
+      match sm_get m (Z.to_N h) with
+      | Some d => (m, BOkInt (Z.of_nat (length d)))
+      | None => (m, BErr)
+      end
+  | BResize h n =>
+      if (h <? 0)%Z then (m, BErr) else
+      if (n <=? 0)%Z then (m, BErr) else
+      if MAX_ALLOC <? Z.to_N n then (m, BErr) else
+      match sm_get m (Z.to_N h) with
+      | Some d =>
+          let k := Z.to_nat n in
+          (sm_set m (Z.to_N h) (firstn k d ++ repeat 0 (k - length d)), BOkUnit)
+      | None => (m, BErr)
+      end
+  | BRead w kind be h off =>
+      if negb (reader_known w kind be) then (m, BErr) else
+      if (h <? 0)%Z then (m, BErr) else if (off <? 0)%Z then (m, BErr) else
+      match sm_get m (Z.to_N h) with
+      | None => (m, BErr)
+      | Some d =>
+          if in_bounds w (Z.to_N off) (N.of_nat (length d)) then
+            let u := dec be (slice d (Z.to_N off) w) in
+            (m, if kind =? 2
+                then BOkWord (v_float (if w =? 8 then u else f32_to_f64 u))
+                else BOkWord (v_int (as_i64 w (kind =? 1) u)))
+          else (m, BErr)
+      end
+  | BWrite w sg be h off v =>
+      match writer_range w sg be with
+      | None => (m, BErr)
+      | Some (lo, hi) =>
+          if (h <? 0)%Z then (m, BErr) else if (off <? 0)%Z then (m, BErr) else
+          if ((v <? lo) || (hi <? v))%Z then (m, BErr) else
+          sp_write_at m h off (enc (N.to_nat w) be (to_unsigned w v))
+      end
+  | BWriteF w be h off bits =>
+      if negb (fwriter_known w be) then (m, BErr)
+      else if w =? 8 then sp_write_at m h off (enc 8 be bits)
+      else sp_write_at m h off (enc 4 be (f64_to_f32 bits))
+  | BCopy sh so dh doff len =>
+      if (sh <? 0)%Z then (m, BErr) else if (so <? 0)%Z then (m, BErr) else
+      if (dh <? 0)%Z then (m, BErr) else if (doff <? 0)%Z then (m, BErr) else
+      if (len <? 0)%Z then (m, BErr) else
+      if (len =? 0)%Z then (m, BOkUnit) else
+      match sm_get m (Z.to_N sh) with
+      | None => (m, BErr)
+      | Some src =>
+          if negb (in_bounds (Z.to_N len) (Z.to_N so) (N.of_nat (length src))) then (m, BErr) else
+          match sm_get m (Z.to_N dh) with
+          | None => (m, BErr)
+          | Some dst =>
+              if negb (in_bounds (Z.to_N len) (Z.to_N doff) (N.of_nat (length dst))) then (m, BErr) else
+              (sm_set m (Z.to_N dh) (splice dst (Z.to_N doff) (slice src (Z.to_N so) (Z.to_N len))), BOkUnit)
+          end
+      end
+  | BFill h off len v =>
+      if (h <? 0)%Z then (m, BErr) else if (off <? 0)%Z then (m, BErr) else
+      if (len <? 0)%Z then (m, BErr) else
+      if ((v <? FILL_MIN) || (FILL_MAX <? v))%Z then (m, BErr) else
+      if (len =? 0)%Z then (m, BOkUnit) else
+      match sm_get m (Z.to_N h) with
+      | None => (m, BErr)
+      | Some d =>
+          if in_bounds (Z.to_N len) (Z.to_N off) (N.of_nat (length d))
+          then (sm_set m (Z.to_N h) (splice d (Z.to_N off) (repeat (Z.to_N v) (Z.to_nat len))), BOkUnit)
+          else (m, BErr)
+      end
+  | BClone h =>
+      if (h <? 0)%Z then (m, BErr) else
+      match sm_get m (Z.to_N h) with
+      | None => (m, BErr)
+      | Some d => sp_new m d hint
+      end
+  | BEquals h1 h2 =>
+      if (h1 <? 0)%Z then (m, BErr) else if (h2 <? 0)%Z then (m, BErr) else
+      match sm_get m (Z.to_N h1), sm_get m (Z.to_N h2) with
+      | Some d1, Some d2 => (m, BOkWord (v_bool (list_eqb N.eqb d1 d2)))
+      | _, _ => (m, BErr)
+      end
+  | BFromString bs =>
+      if MAX_ALLOC <? N.of_nat (length bs) then (m, BErr) else sp_new m bs hint
+  | BDecode h off len =>
+      if (h <? 0)%Z then (m, BErr) else if (off <? 0)%Z then (m, BErr) else
+      if (len <? 0)%Z then (m, BErr) else
+      match sm_get m (Z.to_N h) with
+      | None => (m, BErr)
+      | Some d =>
+          if in_bounds (Z.to_N len) (Z.to_N off) (N.of_nat (length d)) then
+            let bs := slice d (Z.to_N off) (Z.to_N len) in
+            (m, if utf8_valid bs then BOkStr bs else BErr)
+          else (m, BErr)
+      end
+  | BWriteString h off bs =>
+      match sp_write_at m h off bs with
+      | (m', BOkUnit) => (m', BOkInt (Z.of_nat (length bs)))
+      | (m', r) => (m', r)
+      end
+  | BFind h start stop needle =>
+      if (h <? 0)%Z then (m, BErr) else if (start <? 0)%Z then (m, BErr) else
+      if ((needle <? 0) || (255 <? needle))%Z then (m, BErr) else
+      match sm_get m (Z.to_N h) with
+      | None => (m, BErr)
+      | Some d =>
+          let len := N.of_nat (length d) in
+          let e := if (stop <? 0)%Z then len else N.min (Z.to_N stop) len in
+          if e <=? Z.to_N start then (m, BOkInt (-1)) else
+          (m, match find_from (Z.to_N needle) (slice d (Z.to_N start) (e - Z.to_N start)) (Z.to_N start) with
+              | Some i => BOkInt (Z.of_N i)
+              | None => BOkInt (-1)
+              end)
+      end
+  | BReverse h off len =>
+      if (h <? 0)%Z then (m, BErr) else if (off <? 0)%Z then (m, BErr) else
+      if (len <? 0)%Z then (m, BErr) else
+      if (len =? 0)%Z then (m, BOkUnit) else
+      match sm_get m (Z.to_N h) with
+      | None => (m, BErr)
+      | Some d =>
+          if in_bounds (Z.to_N len) (Z.to_N off) (N.of_nat (length d))
+          then (sm_set m (Z.to_N h) (splice d (Z.to_N off) (rev (slice d (Z.to_N off) (Z.to_N len)))), BOkUnit)
+          else (m, BErr)
+      end
+  | BSwap h i j =>
+      if (h <? 0)%Z then (m, BErr) else if (i <? 0)%Z then (m, BErr) else if (j <? 0)%Z then (m, BErr) else
+      match sm_get m (Z.to_N h) with
+      | None => (m, BErr)
+      | Some d =>
+          match nth_N d (Z.to_N i), nth_N d (Z.to_N j) with
+          | Some x, Some y => (sm_set m (Z.to_N h) (upd_N (upd_N d (Z.to_N i) y) (Z.to_N j) x), BOkUnit)
+          | _, _ => (m, BErr)
+          end
+      end
+  end.
+
+Fixpoint bspec_run (m : smap) (os : list bop) (hints : list bres) : smap * list bres :=
+  match os, hints with
+  | o :: r, x :: xs =>
+      let '(m1, y) := bspec_step m o x in let '(m2, ys) := bspec_run m1 r xs in (m2, y :: ys)
+  | _, _ => (m, [])
   end.
 
 Fixpoint b_run (s : bstate) (os : list bop) : bstate * list bres :=
@@ -232,5 +528,6 @@ Definition bop_writes (o : bop) : option Z :=
   match o with
   | BFree (AInt h) | BResize h _ | BWrite _ _ _ h _ _ | BWriteF _ _ h _ _ | BFill h _ _ _ => Some h
   | BCopy _ _ dh _ _ => Some dh
+  | BWriteString h _ _ | BReverse h _ _ | BSwap h _ _ => Some h
   | _ => None
   end.
